@@ -336,7 +336,7 @@ def describe(viol, parsed):
     return "violation"
 
 
-def run_range(exe, prop, seed, lo, hi, gen_args, timeout=900):
+def run_range(exe, prop, seed, lo, hi, gen_args, timeout=120):
     """Runs families [lo, hi) in ONE fresh worker process. Returns (rc, report or None, trap info or None)."""
     os.makedirs(SCRATCH, exist_ok=True)
     out = os.path.join(SCRATCH, "range-%s-%d-%d-%d.json" % (prop, os.getpid(), lo, hi))
@@ -344,7 +344,18 @@ def run_range(exe, prop, seed, lo, hi, gen_args, timeout=900):
     try:
         r = subprocess.run(cmd, capture_output=True, text=True, timeout=timeout, env=ENV_BASE)
     except subprocess.TimeoutExpired:
-        return ("hang", None, None)
+        fam = None
+        try:
+            with open(out + ".progress", "rb") as f:
+                fam = int.from_bytes(f.read(8), "little")
+        except Exception:
+            pass
+        for suf in ("", ".trap", ".progress", ".sigs"):
+            try:
+                os.remove(out + suf)
+            except OSError:
+                pass
+        return ("hang", None, {"family": fam})
     rep = None
     trap = None
     try:
@@ -373,6 +384,8 @@ def range_fails_at(exe, prop, seed, lo, fam, gen_args):
         return "%s: %s" % (v["kind"], v["what"])
     if rc == 77 and trap is not None and trap.get("family") == fam:
         return "hardware trap in family %d" % fam
+    if rc == "hang" and trap is not None and trap.get("family") == fam:
+        return "HANG: no progress within the wall-clock bound in family %d" % fam
     return None
 
 
@@ -387,7 +400,8 @@ def range_replay(exe, prop, seed, viol):
     # first, it is usually monotone; then a linear confirmation)
     best = lo
     a, b = lo, fam
-    for _ in range(24):
+    # (a hang costs a full timeout per attempt: its history is not shrunk)
+    for _ in range(0 if text.startswith("HANG") else 24):
         if a >= b:
             break
         mid = (a + b + 1) // 2
